@@ -117,6 +117,8 @@ def fmt_for(kind, rng):
         return rng.choice(["glyf_colr_1", "glyf_colr_0"])
     if kind in ("bad-spread",):
         return rng.choice(["glyf_colr_1", "picosvg"])
+    if kind in ("dup-glyph-name", "dup-file-name"):
+        return rng.choice(["glyf_colr_1", "glyf_colr_0", "picosvg", "glyf", "cbdt", "sbix", "cbdt"])
     return rng.choice(["glyf_colr_1", "glyf_colr_0", "picosvg", "glyf"])
 
 
@@ -140,10 +142,18 @@ def suite_accept_model(ctx, res, n):
         try:
             fea = tmp / "f.fea"
             fea.write_text(features.generate_fea(sorted({c for _, c in ins if c})))
-            cfg = nconfig.FontConfig(family="V", output_file=str(tmp / "F.ttf"), fea_file=str(fea), color_format="glyf_colr_1",
+            # vector inputs, or bitmap-only inputs (cbdt / sbix: the glyph map has no svg at all, every row is `None, <png>`)
+            flavour = rng.choice(["glyf_colr_1", "glyf_colr_1", "cbdt", "sbix"])
+            cfg = nconfig.FontConfig(family="V", output_file=str(tmp / "F.ttf"), fea_file=str(fea), color_format=flavour,
+                                     upem=1024, ascender=950, descender=-250, width=1275,
                                      masters=(nconfig.MasterConfig("Regular", "Regular", "x.ufo", (), ()),))
-            svg = SVG.fromstring(cli.simple_svg(1)).topicosvg()
-            inputs = [write_font.InputGlyph(Path(f"s{i}.svg"), None, c, nm, SVG.fromstring(svg.tostring()), None) for i, (nm, c) in enumerate(ins)]
+            if flavour == "glyf_colr_1":
+                svg = SVG.fromstring(cli.simple_svg(1)).topicosvg()
+                inputs = [write_font.InputGlyph(Path(f"s{i}.svg"), None, c, nm, SVG.fromstring(svg.tostring()), None) for i, (nm, c) in enumerate(ins)]
+            else:
+                from nanoemoji.png import PNG
+                from harness.props import C14
+                inputs = [write_font.InputGlyph(None, Path(f"b{i}.png"), c, nm, None, PNG(C14.make_png(32, 32, i + 1))) for i, (nm, c) in enumerate(ins)]
             try:
                 write_font._generate_color_font(cfg, inputs)
                 real.append(True)
